@@ -49,6 +49,8 @@ func cacheEvents() []cacheEvent {
 			evs = append(evs, cacheEvent{name: fmt.Sprintf("open(except=%v,filtering=%v)", ex, filt), kind: "open", ex: ex, filt: filt})
 		}
 	}
+	// a handle whose exclusion bitmap covers EVERY document (a fully deleted segment)
+	evs = append(evs, cacheEvent{name: "open(except=[0 1 2],filtering=false)", kind: "open", ex: []uint32{0, 1, 2}})
 	for h := 0; h < 2; h++ {
 		evs = append(evs, cacheEvent{name: fmt.Sprintf("search(h%d)", h), kind: "search", h: h})
 		evs = append(evs, cacheEvent{name: fmt.Sprintf("searchFiltered(h%d,[1])", h), kind: "searchf", h: h, el: []uint64{1}})
@@ -514,7 +516,7 @@ func init() {
 	run.Register(&run.Def{
 		ID:          "C16",
 		Level:       "model_checking",
-		Rule:        "(a) explicit-state breadth-first search over the REAL vector index cache (vectors tag, stand-in engine, controlled scheduler with spawned goroutines run at the spawn point, the monitor loop replaced by explicit tick events through the verif hook): one segment (3 documents, one with 3 vectors; in-memory and mmap-opened); events open(except in {nil,{0},{1}}, requiresFiltering in {false,true}) with <= 2 handles open, search(h), searchFiltered(h, eligible in {[1],[0,1,2]}), close(h), tick (one expiry pass), segclose (terminal, only without open handles); a successor is computed by replaying the whole history on a fresh segment plus one event; states are deduplicated by a canonical key (private cache state through the verif hook: per field reference count, hit-tracker average bits and sample, documents covered by the cached id->doc map, presence of the doc->ids map, index present; per handle its exclusion bitmap, filtering flag and whether it holds the currently cached index; engine live count). Invariants in every state: every search through a handle equals the reference for THAT handle's exclusion bitmap (exact top-k oracle); the native index of every open handle is alive; no double free / use after free in the engine; after segclose no native object is alive. (b) stateless model checking under the scheduler: searcher A (no exclusion; two open/search/close rounds) || searcher B (except {0}, filtering; two OVERLAPPING handles: open, search without and with a filter, open, close first, search both ways, close) || 3 expiry ticks, then a sequential epilogue (open; 3 expiry passes while the handle is held; search; close), then segment close; interleavings at RWMutex / atomic / spawn points with a preemption bound of 3 (2 for the mmap-opened segment in quick); (c) the same way, all interleavings of: segment Close || two expiry passes, after open/search/close and one expiry pass (an expiry pass overlapping the close that stops the monitor); plus a free-running -race pass of (b) and (c) with the real goroutines.",
+		Rule:        "(a) explicit-state breadth-first search over the REAL vector index cache (vectors tag, stand-in engine, controlled scheduler with spawned goroutines run at the spawn point, the monitor loop replaced by explicit tick events through the verif hook): one segment (3 documents, one with 3 vectors; in-memory and mmap-opened); events open(except in {nil,{0},{1}}, requiresFiltering in {false,true}; and except = every document) with <= 2 handles open, search(h), searchFiltered(h, eligible in {[1],[0,1,2]}), close(h), tick (one expiry pass), segclose (terminal, only without open handles); a successor is computed by replaying the whole history on a fresh segment plus one event; states are deduplicated by a canonical key (private cache state through the verif hook: per field reference count, hit-tracker average bits and sample, documents covered by the cached id->doc map, presence of the doc->ids map, index present; per handle its exclusion bitmap, filtering flag and whether it holds the currently cached index; engine live count). Invariants in every state: every search through a handle equals the reference for THAT handle's exclusion bitmap (exact top-k oracle); the native index of every open handle is alive; no double free / use after free in the engine; after segclose no native object is alive. (b) stateless model checking under the scheduler: searcher A (no exclusion; two open/search/close rounds) || searcher B (except {0}, filtering; two OVERLAPPING handles: open, search without and with a filter, open, close first, search both ways, close) || 3 expiry ticks, then a sequential epilogue (open; 3 expiry passes while the handle is held; search; close), then segment close; interleavings at RWMutex / atomic / spawn points with a preemption bound of 3 (2 for the mmap-opened segment in quick); (c) the same way, all interleavings of: segment Close || two expiry passes, after open/search/close and one expiry pass (an expiry pass overlapping the close that stops the monitor); plus a free-running -race pass of (b) and (c) with the real goroutines.",
 		Assumptions: []string{"the vector engine is the pure-Go stand-in (DESIGN 3.4)", "a client closes a segment only when it holds no open vector index handle", "filtered search is only issued through handles opened with requiresFiltering"},
 		Bounds:      map[string]string{"quick": "BFS depth 5 (both segment kinds), concurrent harness bound 3 (in-memory) / 2 (mmap-opened)", "thorough": "BFS depth 7, concurrent harness bound 3 for both"},
 		Flavours:    func(string) []string { return []string{"instvec", "racevec"} },
